@@ -36,7 +36,7 @@ META = {
     'bounds': {'quick': 'result classes: all 7 (base + 6 registered); tag signatures: every signature produced by the real '
                         'evaluation functions on the input family + all single-field variations; test distributions of 0..3 '
                         'elements; region: lattice family without flagged cells, every finite (lon, lat)',
-               'thorough': 'full product of field tags per class; region: full lattice family (25 spacing/anchor x 3 orders)'},
+               'thorough': 'full product of field tags per class; region: every third lattice of the thorough family (25 spacing/anchor x 3 orders x 8 shapes)'},
     'outside': ['byte-level JSON formatting and parsing (type-rule contract of the json stub)',
                 'results whose test_distribution is not numeric (W-test stores the string "normal")',
                 'regions with flagged (masked) cells: the dictionary form does not carry the mask'],
@@ -396,6 +396,8 @@ def jobs(tier, seed):
         out.append({'name': 'result %s' % cls, 'kind': 'result', 'cls': cls, 'tier': tier, 'cost': 30})
     out.append({'name': 'json stub conformance', 'kind': 'jsonconf', 'cost': 1})
     fam = [l for l in C.lattice_family(tier, seed) if l['flags'] is None]
+    if tier == 'thorough':
+        fam = fam[::3]          # every third lattice of the thorough family (~170 region jobs): the full family did not finish in 2.5 h on 4 workers
     # a lattice whose origins need seven decimals (spacing 1/128): a dictionary form that rounds coordinates shows here
     fam.append(C.lattice('2x2 dh=1/128', 2, 2, 0.0078125, (-116.9921875, 34.0234375)))
     for lat in fam:
